@@ -5,6 +5,7 @@ import Driver.C09
 import Driver.Boxing
 import Driver.C08
 import Driver.Early
+import Driver.EarlyStep
 import Driver.Registry
 import Driver.Pg
 import Driver.C16
@@ -35,6 +36,7 @@ def main (args : List String) : IO UInt32 := do
       | "c02-box" => Driver.BoxingD.run ops impl
       | "c08" => Driver.C08.run ops impl
       | "c07-early" => Driver.EarlyD.run ops impl
+      | "c07-earlystep" => Driver.EarlyStepD.run ops impl
       | "registry" => Driver.Registry.run ops impl
       | "pg" => Driver.Pg.run ops impl
       | "c16" => Driver.C16.run ops impl
